@@ -21,6 +21,7 @@ import (
 	"time"
 
 	"github.com/inbucket/inbucket/v3/pkg/extension"
+	"github.com/inbucket/inbucket/v3/pkg/extension/event"
 	"github.com/inbucket/inbucket/v3/pkg/message"
 	"github.com/inbucket/inbucket/v3/pkg/storage"
 
@@ -53,6 +54,10 @@ func runConcHistory(w *tr.Writer, b concBehaviour, rep int, seed int64, scratch 
 	hid := fmt.Sprintf("%s#%d", b.ID, rep)
 	rng := rand.New(rand.NewSource(seed))
 	host := extension.NewHost()
+	// C16 under concurrency: every after-event of the history is recorded and reported with the final state
+	rec := &evRec{}
+	host.Events.AfterMessageDeleted.AddListener("verif", func(m event.MessageMetadata) { rec.invoke("deleted", m) })
+	host.Events.AfterMessageStored.AddListener("verif", func(m event.MessageMetadata) { rec.invoke("stored", m) })
 	dir := filepath.Join(scratch, "store-"+b.ID+fmt.Sprint(rep))
 	if b.Store == "file" {
 		_ = os.MkdirAll(dir, 0o770)
@@ -265,7 +270,7 @@ func runConcHistory(w *tr.Writer, b concBehaviour, rep int, seed int64, scratch 
 	for _, e := range evs {
 		w.Emit(e.ev)
 	}
-	fin := tr.Ev{"a": "final", "t": hid}
+	fin := tr.Ev{"a": "final", "t": hid, "evs": flushEvents(host, rec)}
 	snapInto(fin)
 	w.Emit(fin)
 }
